@@ -29,6 +29,10 @@ Theorem C13_flux_boundary_planar : forall rho m, flux_boundary_integrand rho m 2
 Proof. exact FormsProofs.flux_boundary_planar. Qed.
 Print Assumptions C13_flux_boundary_planar.
 
+Theorem C13_flux_boundary_three_components : forall rho, flux_boundary_integrand rho 3 2 = flux_boundary_integrand rho 2 2 + vk rho 3 0 0 1 * Rabs (ev rho jac_det).
+Proof. exact FormsProofs.flux_boundary_three_components. Qed.
+Print Assumptions C13_flux_boundary_three_components.
+
 Theorem C13_flux_curve_normalisation : forall f1 f2 tx' ty' : R, 0 < tx' * tx' + ty' * ty' -> (f1 * (ty' / sqrt (ty' * ty' + tx' * tx')) + f2 * (- tx' / sqrt (ty' * ty' + tx' * tx'))) * sqrt (tx' * tx' + ty' * ty') = f1 * ty' - f2 * tx'.
 Proof. exact FormsProofs.flux_curve_normalisation. Qed.
 Print Assumptions C13_flux_curve_normalisation.
